@@ -6,6 +6,7 @@ package main
 // built from different objects are not known to be equal).
 
 import (
+	"strings"
 	"fmt"
 	"go/types"
 	"math/big"
@@ -207,6 +208,8 @@ type IterV struct {
 	M     *Term
 	Dom   *Term // domain snapshot at range time (Array Key Bool)
 	State *Cell // synthetic cell holding the visited set
+	Count *Cell // synthetic cell holding the number of keys visited so far
+	Card  *Term // number of keys of the map when the iteration started
 	R     mapRegions
 	Str   *SliceV // iteration over a string
 }
@@ -226,7 +229,12 @@ func (ex *Exec) rangeInit(fr *Frame, x *ssa.Range) Val {
 	ex.st.cells[c] = Scalar{T: ex.constArray(SArr(r.ks, SBool), ts.False())}
 	// the loop that consumes this iterator can name it: visited(k) / iterdom(k)
 	fr.iters = append(fr.iters, c)
-	return IterV{M: m, Dom: dom, State: c, R: r}
+	ex.cellID++
+	cnt := &Cell{Name: "$vcount", ID: ex.cellID, Synth: ex.idxSort()}
+	z := ts.NumLit(big.NewInt(0), ex.idxSort())
+	ex.st.cells[cnt] = Scalar{T: z, Typ: types.Typ[types.Int]}
+	card := ts.Ite(ts.Eq(m, ts.Int(0)), z, ts.Select(ex.mapCard(r), m))
+	return IterV{M: m, Dom: dom, State: c, Count: cnt, Card: card, R: r}
 }
 
 func (ex *Exec) rangeNext(fr *Frame, x *ssa.Next) Val {
@@ -248,6 +256,27 @@ func (ex *Exec) rangeNext(fr *Frame, x *ssa.Next) Val {
 		ex.dry.cells[it.State] = true
 	}
 	ex.st.cells[it.State] = Scalar{T: ts.Ite(okT, ts.Store(visited, k, ts.True()), visited)}
+	if it.Count != nil && ex.contractMentions("visitedcount") {
+		// the number of keys visited so far (the size of the visited set, which the logic cannot count): between 0 and the
+		// size of the map at range time, below it while an unvisited key is left, and equal to it when the iteration ends
+		// without the key set having changed
+		if ex.dry != nil {
+			ex.dry.cells[it.Count] = true
+		}
+		cnt := ex.st.cells[it.Count].(Scalar).T
+		z := ts.NumLit(big.NewInt(0), ex.idxSort())
+		one := ts.NumLit(big.NewInt(1), ex.idxSort())
+		ex.assume(ts.And(ts.Le(z, cnt, true), ts.Le(cnt, it.Card, true)))
+		var same *Term
+		if cur == it.Dom {
+			same = ts.True()
+		} else {
+			same = ts.Eq(cur, it.Dom)
+		}
+		ex.assume(ts.Implies(ts.And(okT, same), ts.Lt(cnt, it.Card, true)))
+		ex.assume(ts.Implies(ts.And(ts.Not(okT), same), ts.Eq(cnt, it.Card)))
+		ex.st.cells[it.Count] = Scalar{T: ts.Ite(okT, ts.Add(cnt, one), cnt), Typ: types.Typ[types.Int]}
+	}
 	kv := ex.keyVal(k, r.mt.Key())
 	vv, _ := ex.mapRead(r, it.M, k)
 	fr.lastIter = &iterStep{key: k, it: it, prevVisited: visited}
@@ -301,4 +330,39 @@ func (ex *Exec) iterOf(fr *Frame, cell *Cell) (IterV, bool) {
 		}
 	}
 	return IterV{}, false
+}
+
+// contractMentions: does any loop or call-site clause of the contract under verification use the given builtin (facts
+// that only such clauses need are not added to the verification conditions of other functions)
+func (ex *Exec) contractMentions(name string) bool {
+	if ex.contract == nil {
+		return false
+	}
+	if v, ok := ex.mentions[name]; ok {
+		return v
+	}
+	found := false
+	has := func(cs []*Clause) {
+		for _, c := range cs {
+			if c != nil && strings.Contains(c.Text, name+"(") {
+				found = true
+			}
+		}
+	}
+	c := ex.contract
+	has(c.Requires)
+	has(c.Ensures)
+	for _, l := range c.Loops {
+		has(l.Invariants)
+		has(l.After)
+		has(l.Steps)
+	}
+	for _, cs := range c.CallSites {
+		has(cs)
+	}
+	if ex.mentions == nil {
+		ex.mentions = map[string]bool{}
+	}
+	ex.mentions[name] = found
+	return found
 }
